@@ -416,16 +416,21 @@ def ball_vcs(tag, n=None):
     sqrts = sqrt_terms(x)
     ext = []
     if n is None:
-        for s in sqrts:
-            if isinstance(s[1], tuple) and s[1][0] == 'nv_sum':
-                for g in gauss:
-                    nm = f'{tag}/direction_is_gaussian: the summand of the squared norm equals the squared Gaussian draw at every coordinate'
-                    v = gen.vc(nm, hyps, ('=', s[1][1], ('*', g, g)), about='equal summands give equal sums (used by direction_nonzero)', source=src, use_sum_facts=False)
-                    if v.verify()['status'] == 'SUCCESS':
-                        out.append(v)
-                        ext.append(('=', s[1], ('nv_sum', ('*', g, g))))
-                    else:
-                        out.append(undecided(nm, 'the summand is not the square of the draw', src))
+        under_sqrt = [s[1] for s in sqrts]
+        sums = []
+        for c in x.c:
+            for t in sx.subterms(sx.parse(c), 'nv_sum'):
+                if t not in sums:
+                    sums.append(t)
+        for k, t in enumerate(sums):
+            for g in gauss:
+                nm = f'{tag}/direction_is_gaussian: the summand of the squared norm equals the squared Gaussian draw at every coordinate' + (f' #{k + 1}' if k else '')
+                v = gen.vc(nm, hyps, ('=', t[1], ('*', g, g)), about='equal summands give equal sums (used by direction_nonzero)', source=src, use_sum_facts=False)
+                if v.verify()['status'] == 'SUCCESS':
+                    out.append(v)
+                    ext.append(('=', t, ('nv_sum', ('*', g, g))))
+                elif t in under_sqrt:
+                    out.append(undecided(nm, 'the summand is not the square of the draw', src))
     given = hyps + nonzero + ext
     # obligations collected by the walk (array sizes, loop shape, distribution parameters, sqrt argument >= 0, divisor != 0)
     seen = {}
